@@ -119,3 +119,9 @@ PROPS['C17'] = dict(
                  crash_is_violation=True, crash_key='ctxio:crash', timeout=1800, replay='rerun') for m in (1, 0)],
     need_counters=['reads_cancelled', 'writes_cancelled', 'reads_probe', 'writes_probe', 'stream_bytes', 'datagrams'],
 )
+
+PROPS['C11'] = dict(
+    level='exploration', builds={'udpdemux_race': dict(pkg='./cmd/udpdemux', overlay='shim', race=True)},
+    stages=[dict(name='demux', bin='udpdemux_race', shards=shards(4, 12), par=6, crash_is_violation=True, crash_key='demux:crash', timeout=1800, replay='rerun')],
+    need_counters=['datagrams_read', 'connections', 'overflow_phases', 'refused_by_backlog', 'refused_by_filter', 'reconnect_cases', 'same_port_different_ip_pairs'],
+)
